@@ -374,7 +374,7 @@ Proof.
   pose proof (main_segs q Hok (parse_fuel inp) Hfuel) as Hrun. fold inp in Hrun. rewrite Hrun.
   unfold query_pairs. cbn [next_down p_kids]. unfold b_jp_query. cbn [next_down p_kids bind].
   assert (E5 : exists f, parse_fuel inp = S (S (S (S (S f))))).
-  { exists (395 + 60 * length inp). unfold parse_fuel. lia. }
+  { exists (995 + 400 * length inp). unfold parse_fuel. lia. }
   destruct E5 as [f E5]. rewrite E5. rewrite b_segments_step. cbn [p_kids].
   change 1 with (length [36%N]).
   rewrite (mapM_segs inp f q [36%N] []); [|unfold inp; rewrite app_nil_r; reflexivity|exact Hok|exact Hr].
